@@ -572,4 +572,84 @@ theorem mrm_morHeap_ctx (d : Nat) (m : MMetaSlab (MTree r d)) (x : Option DX) (c
 
 end morCtx
 
+/-! ### the field `mergeOrRebalance` of the restructuring record `rsOf T` of the descent -/
+
+section morRs
+variable {r : Nat} (T : Nat)
+
+/-- the child object after the call is in `uint` range when the child as passed and every possible result are -/
+theorem mrm_morChild_fit (d : Nat) (m : MMetaSlab (MTree r d)) (child : MTree r d) (k u : Nat)
+    (hfit : mrm_MorFit T d m child k u) (hc : mr_RootFit d child) :
+    mr_RootFit d (msl_morChild T d m child k u) := by
+  simp only [msl_morChild]
+  by_cases hk0 : 0 < k
+  · cases hl : m.children[k - 1]? with
+    | none =>
+      cases hx : m.children[k + 1]? with
+      | none => simp only [gt_iff_lt, hk0, ite_self, Bool.or_false]; exact hc
+      | some y =>
+        have hR := hfit.rebR y hx
+        have hM := hfit.mergeR y hx
+        simp only [gt_iff_lt, hk0, if_true, Bool.false_or]
+        repeat' split
+        all_goals first | exact hc | exact hR.1 | exact hM | (simp_all; done)
+    | some l =>
+      have hL := hfit.rebL l hk0 hl
+      cases hx : m.children[k + 1]? with
+      | none =>
+        simp only [gt_iff_lt, hk0, if_true, ite_self, Bool.or_false]
+        repeat' split
+        all_goals first | exact hc | exact hL.2 | (simp_all; done)
+      | some y =>
+        have hR := hfit.rebR y hx
+        have hM := hfit.mergeR y hx
+        simp only [gt_iff_lt, hk0, if_true]
+        repeat' split
+        all_goals first | exact hc | exact hL.2 | exact hR.1 | exact hM | (simp_all; done)
+  · simp only [gt_iff_lt, hk0, if_false, Bool.false_or]
+    cases hx : m.children[k + 1]? with
+    | none => simp only [ite_self]; exact hc
+    | some y =>
+      have hR := hfit.rebR y hx
+      have hM := hfit.mergeR y hx
+      repeat' split
+      all_goals first | exact hc | exact hR.1 | exact hM | (simp_all; done)
+
+/-- **`MergeOrRebalanceChildSlab` as the descent calls it** (`(rsOf T).mergeOrRebalance`, the generated code of
+    `Gen/TransMapSlabs.lean` over the heap) on the descent's records of a model index slab `m` (extra data `x`) and the
+    updated child (passed by value) = the model's `MMetaSlab.mergeOrRebalanceChildSlab` on `s.ctx`:
+    in the `.ok (m', c')` case no error, the parent `md_meta m' x`, the heap `mrm_morHeap` (explicit per branch of the
+    3 x 3 table; its `Ctx` is `c'`: `mrm_morHeap_ctx`) and the child object `msl_morChild`; an error (the model's
+    `.goPanic` "no sibling at all" = the generated panic, or the `SlabRebalanceError` of a data-slab rebalance) leaves
+    parent, storage and child untouched.  Only the two NEIGHBOURS of child `k` are read from the heap (`hheap`). -/
+theorem Ob_MergeOrRebalanceChildSlab_heap (d : Nat)
+    (m : MMetaSlab (MTree r d)) (x : Option DX) (child : MTree r d) (k u : Nat) (s : MHSt r)
+    (hlen : m.children.length = m.childHdrs.length) (hk : k < m.childHdrs.length)
+    (hsz : Gen.mapSlabHeaderSize ≤ m.hdr.size)
+    (hheap : ∀ i t h, (i + 1 = k ∨ i = k + 1) → m.children[i]? = some t → m.childHdrs[i]? = some h →
+      s.heap h.id = some (md_tree d t none))
+    (hfit : mrm_MorFit T d m child k u) (hfc : mr_RootFit d child)
+    (hsize : ∀ i t, (i + 1 = k ∨ i = k + 1) → m.children[i]? = some t → (MTree.hdr d t).size < 2^32)
+    (hLend : ∀ t, 0 < k → m.children[k - 1]? = some t → MTree.canLendToRight T d t u = true → msl_LendOK T d t child)
+    (hBorrow : ∀ t, m.children[k + 1]? = some t → MTree.canLendToLeft T d t u = true → msl_BorrowOK T d child t)
+    (hMergeL : ∀ t, 0 < k → m.children[k - 1]? = some t → msl_MergeOK d t child)
+    (hMergeR : ∀ t, m.children[k + 1]? = some t → msl_MergeOK d child t) :
+    (rsOf T).mergeOrRebalance (md_meta m x) s (md_tree d child none) (Int.ofNat k) (u32 u) =
+      match MMetaSlab.mergeOrRebalanceChildSlab T m child k u s.ctx with
+      | .error e => (some e, md_meta m x, s, md_tree d child none)
+      | .ok (m', _) =>
+        (none, md_meta m' x, mrm_morHeap T d m x child k u s, md_tree d (msl_morChild T d m child k u) none) := by
+  have hg := mrm_MergeOrRebalanceChildSlab_gen T d m x child k u s hlen hk hsz hheap hfit hsize hLend hBorrow
+    hMergeL hMergeR
+  have hcf := mrm_morChild_fit T d m child k u hfit hfc
+  simp only [rsOf, mr_metaM_md_meta, mr_toM_md_tree_none, hg]
+  cases hres : MMetaSlab.mergeOrRebalanceChildSlab T m child k u s.ctx with
+  | error e =>
+    cases e <;> simp only [mr_metaD_cMeta, mr_fromM_cTree d child hfc]
+  | ok p =>
+    obtain ⟨m', c'⟩ := p
+    simp only [mr_metaD_cMeta, mr_fromM_cTree d _ hcf]
+
+end morRs
+
 end Atree.TransEq
